@@ -139,12 +139,12 @@ Proof.
 Qed.
 
 Lemma k_resolve_excl_exists f k node :
-  fs_get f k = Some node -> k_resolve f (PKey k) fl_excl = (f, Err EEXIST).
+  fs_get f k = Some node -> k_resolve f (PKey k) true fl_excl = (f, Err EEXIST).
 Proof. intros H. unfold k_resolve. rewrite H. reflexivity. Qed.
 
-Lemma k_resolve_none_exists f k node :
-  fs_get f k = Some node -> k_resolve f (PKey k) fl_none = (f, Ok k).
-Proof. intros H. unfold k_resolve. rewrite H. destruct node; reflexivity. Qed.
+Lemma k_resolve_none_exists f k c d w :
+  fs_get f k = Some (Reg c d) -> k_resolve f (PKey k) w fl_none = (f, Ok k).
+Proof. intros H. unfold k_resolve. rewrite H. reflexivity. Qed.
 
 (* ---- noclobber ------------------------------------------------------------------- *)
 
@@ -168,7 +168,7 @@ Proof.
       { assert (fs_get (k_fs s1) k = Some (Reg c d)) as Hreg1 by (rewrite Hfs1; exact Hreg).
         unfold open_file_noclobber, k_open.
         rewrite (k_resolve_excl_exists _ _ _ Hreg1). cbn [with_fs k_fs].
-        rewrite (k_resolve_none_exists _ _ _ Hreg1). cbn [new_ofd].
+        rewrite (k_resolve_none_exists _ _ _ _ _ Hreg1). cbn [new_ofd].
         intros sx osp.
         destruct (alloc_fd _ 0 _) as [sb [fd|e]] eqn:Ea.
         - apply alloc_fd_ok in Ea. destruct Ea as [_ [_ [_ [_ [_ [_ Ef]]]]]]. cbn in Ef.
